@@ -199,6 +199,11 @@ impl World {
     }
     pub fn to_cosmos(&self, m: &CMsg) -> CosmosMsg {
         match m {
+            // recipient 777 = the proxy's own address (a recipient outside every user pool)
+            CMsg::BankSend { to, coins } if *to == 777 => CosmosMsg::Bank(BankMsg::Send {
+                to_address: self.proxy.as_ref().map(|a| a.to_string()).unwrap_or_default(),
+                amount: Self::coins(coins),
+            }),
             CMsg::BankSend { to, coins } => {
                 CosmosMsg::Bank(BankMsg::Send { to_address: self.pool.addr(*to).to_string(), amount: Self::coins(coins) })
             }
@@ -243,6 +248,9 @@ impl World {
     }
     pub fn from_cosmos(&self, m: &CosmosMsg) -> CMsg {
         match m {
+            CosmosMsg::Bank(BankMsg::Send { to_address, amount }) if Some(to_address.as_str()) == self.proxy.as_ref().map(|a| a.as_str()) => {
+                CMsg::BankSend { to: 777, coins: Self::dec_coins(amount) }
+            }
             CosmosMsg::Bank(BankMsg::Send { to_address, amount }) => {
                 CMsg::BankSend { to: self.pool.id(to_address).unwrap_or(ANOMALY), coins: Self::dec_coins(amount) }
             }
@@ -339,12 +347,19 @@ impl World {
         let q = self.app.wrap();
         let sender = self.pool.addr(s).to_string();
         let msg = self.to_cosmos(m);
-        let r: StdResult<CanExecuteResponse> = if self.subkeys {
-            q.query_wasm_smart(&proxy, &SkQuery::<Empty>::CanExecute { sender, msg })
-        } else {
-            q.query_wasm_smart(&proxy, &WlQuery::<Empty>::CanExecute { sender, msg })
-        };
-        r.ok().map(|x| x.can_execute)
+        // a query that panics (an arithmetic overflow inside the contract) is "no answer", not the end of the run
+        let sk = self.subkeys;
+        let r = std::panic::catch_unwind(std::panic::AssertUnwindSafe(|| -> StdResult<CanExecuteResponse> {
+            if sk {
+                q.query_wasm_smart(&proxy, &SkQuery::<Empty>::CanExecute { sender, msg })
+            } else {
+                q.query_wasm_smart(&proxy, &WlQuery::<Empty>::CanExecute { sender, msg })
+            }
+        }));
+        match r {
+            Ok(r) => r.ok().map(|x| x.can_execute),
+            Err(_) => None,
+        }
     }
 
     /// returns (pred, hok, ok, relayed, exact)
@@ -403,6 +418,12 @@ impl World {
                 (true, resp.messages.iter().map(|sm| self.from_cosmos(&sm.msg)).collect(), exact)
             }
             _ => (false, vec![], true),
+        };
+        // a CanExecute query that gives no answer (error or abort) predicts nothing: it is recorded as the
+        // opposite of what Execute then did, so that S_C16 reports it
+        let pred = match (&st.op, pred) {
+            (Op::Execute { msgs }, None) if msgs.len() == 1 => Some(!hok),
+            (_, p) => p,
         };
         (pred, hok, ok, relayed, exact)
     }
@@ -532,13 +553,41 @@ pub fn generate(seed: u64, case: u64, max_steps: usize) -> Ran {
     ran.init_obs = w.observe();
     let mut cur = ran.init_obs.clone();
     let nsteps = 1 + r.below(max_steps as u64) as usize;
+    let mut pending: std::collections::VecDeque<Step> = Default::default();
     for _ in 0..nsteps {
+        if let Some(st) = pending.pop_front() {
+            let (pred, hok, ok, relayed, exact) = w.call(&st);
+            let obs = w.observe();
+            ran.classes.push(op_class(subkeys, &st.op, hok, ok, pred));
+            ran.trace.steps.push(st);
+            cur = obs.clone();
+            ran.results.push((pred, hok, ok, relayed, exact, obs));
+            continue;
+        }
         let (mut h, mut t) = (w.height, w.time);
         if r.chance(1, 3) {
             h += 1 + r.below(2);
             t += 1000 * (1 + r.below(3));
         }
         let any = r.below(n as u64) as usize;
+        // the life of one grant, step by step: granted with a deadline, spent down to exactly nothing, topped up without a
+        // new deadline, and used again once the deadline has passed (the send must then fail)
+        if subkeys && !cur.admins.is_empty() && cur.admins[0] < n && r.chance(1, 14) {
+            let adm = cur.admins[0];
+            let fresh: Vec<usize> = (0..n).filter(|u| *u != adm && !cur.admins.contains(u) && !cur.stored.iter().any(|x| x.0 == *u)).collect();
+            if !fresh.is_empty() {
+                let g = *r.pick(&fresh);
+                let d = r.below(3) as usize;
+                let a = 1 + r.below(20) as u128;
+                let b = 1 + r.below(20) as u128;
+                let e = if r.chance(1, 2) { Exp::H(h + 6) } else { Exp::T(t + 6_000) };
+                pending.push_back(Step { h, t, s: adm, op: Op::Inc { sp: Arg::Id(g), c: (d, Uint128::new(a)), e: Some(e) } });
+                pending.push_back(Step { h, t, s: g, op: Op::Execute { msgs: vec![CMsg::BankSend { to: any, coins: vec![(d, Uint128::new(a))] }] } });
+                pending.push_back(Step { h: h + 1, t: t + 1_000, s: adm, op: Op::Inc { sp: Arg::Id(g), c: (d, Uint128::new(b)), e: None } });
+                pending.push_back(Step { h: h + 8, t: t + 8_000, s: g, op: Op::Execute { msgs: vec![CMsg::BankSend { to: any, coins: vec![(d, Uint128::new(b))] }] } });
+                continue;
+            }
+        }
         let admin = if !cur.admins.is_empty() && cur.admins[0] < n { cur.admins[r.below(cur.admins.len() as u64) as usize] } else { any };
         let admin = if admin < n { admin } else { any };
         let grantee: Option<(usize, Al)> = if cur.stored.is_empty() { None } else { Some(r.pick(&cur.stored).clone()) };
@@ -568,6 +617,12 @@ pub fn generate(seed: u64, case: u64, max_steps: usize) -> Ran {
                     };
                     (s, Op::Execute { msgs: gen_msgs(&mut r, n, al.as_ref()) })
                 }
+                45..=64 if cur.stored.iter().any(|(_, al)| al.bal.is_empty()) && r.chance(1, 2) => {
+                    // an allowance spent down to nothing (its record and expiry are still stored) is topped up
+                    let g = cur.stored.iter().find(|(_, al)| al.bal.is_empty()).map(|x| x.0).unwrap();
+                    let e = if r.chance(2, 3) { None } else { pick_exp(&mut r, h, t) };
+                    (admin, Op::Inc { sp: Arg::Id(g), c: (r.below(3) as usize, pick_amt(&mut r, 10)), e })
+                }
                 45..=64 => {
                     let s = if r.chance(7, 8) { admin } else { any };
                     let sp = match &grantee {
@@ -575,7 +630,12 @@ pub fn generate(seed: u64, case: u64, max_steps: usize) -> Ran {
                         _ => pick_arg(&mut r, n),
                     };
                     let d = r.below(3) as usize;
-                    (s, Op::Inc { sp, c: (d, pick_amt(&mut r, 100)), e: pick_exp(&mut r, h, t) })
+                    // sometimes the very expiry the grantee's allowance already has (expired or not)
+                    let e = match (&grantee, &sp) {
+                        (Some((g, al)), Arg::Id(x)) if g == x && r.chance(1, 4) => al.exp.clone(),
+                        _ => pick_exp(&mut r, h, t),
+                    };
+                    (s, Op::Inc { sp, c: (d, pick_amt(&mut r, 100)), e })
                 }
                 65..=76 => {
                     let s = if r.chance(7, 8) { admin } else { any };
@@ -644,7 +704,7 @@ fn gen_send(r: &mut Rng, n: usize, al: Option<&Al>) -> CMsg {
     if r.chance(1, 12) {
         coins.clear();
     }
-    CMsg::BankSend { to: r.below(n as u64) as usize, coins }
+    CMsg::BankSend { to: if r.chance(1, 10) { 777 } else { r.below(n as u64) as usize }, coins }
 }
 
 fn gen_msg(r: &mut Rng, n: usize, al: Option<&Al>) -> CMsg {
